@@ -104,3 +104,11 @@ brk("c31-precheck-offset-not-advanced", HS,
     "                bucket.check_conflicts(check_offset, data)\n",
     "                bucket.check_conflicts(offset, data)\n",
     note="= seeded/C31-1: an identical re-send of a body > 64 KiB gets 409")
+# ---- = seeded/C24-3: test-vector size replaced by the specimen length ("must be new" test matches any share)
+brk("c31-rtw-server-test-size-from-specimen-length", HS,
+    "                            (d[\"offset\"], d[\"size\"], b\"eq\", d[\"specimen\"])",
+    "                            (d[\"offset\"], len(d[\"specimen\"]), b\"eq\", d[\"specimen\"])")
+brk("c31-rtw-client-test-size-from-specimen-length", SC,
+    "                TestVector(offset=offset, size=size, specimen=specimen)",
+    "                TestVector(offset=offset, size=len(specimen), specimen=specimen)",
+    note="same mistake in the IStorageServer adapter: only the adapter layer shows it")
